@@ -36,11 +36,70 @@ CONSUMERS = [
 ]
 
 
+def reference_verbatim(ctx):
+    """'Every stress-free reference configuration ... has zero strain energy': the strains that are subtracted (B_Gamma0, B_Kappa0, J) must be
+    those of the configuration Q the rod was given.  set_reference_strains must store Q verbatim (copy), evaluate the kernel on
+    selections of that copy, and nothing may modify self.Q in place in between or elsewhere (a normalisation of the nodal quaternions
+    changes the interpolated strains of the Quaternion interpolation, which is linear in the raw nodal quaternions)."""
+    from .. import alias
+    rep = ctx.rep
+    ci = ctx.model.cls("CosseratRod_PetrovGalerkin")
+    fn = ci.methods.get("set_reference_strains")
+    if fn is None:
+        raise AnalysisError("set_reference_strains vanished")
+    C = f"{ci.rel}:{ci.qual}.set_reference_strains"
+    params = [a.arg for a in fn.args.args][1:]
+    if not params:
+        raise AnalysisError(f"{C}: no parameter")
+    Q = params[0]
+    st = [n for n in ast.walk(fn) if isinstance(n, ast.Assign) and norm_src(n.targets[0]) == "self.Q"]
+    verb = st and all(norm_src(n.value) in (f"{Q}.copy()", f"np.copy({Q})", f"np.array({Q})", f"np.array({Q}, dtype=float)", Q) for n in st)
+    if verb:
+        rep.ok("C10.R5", C, f"{norm_src(st[0])}: verbatim copy of the supplied reference coordinates")
+    else:
+        rep.bad("C10.R5", C, st[0] if st else fn.name, "self.Q is not a verbatim copy of the supplied reference coordinates", f"{ci.rel}:{(st[0] if st else fn).lineno}")
+    # in-place modification of self.Q (or of the parameter) anywhere in the class
+    fa = alias.FunctionAliasing(fn)
+    muts = []
+    for node in fa.cfg.nodes:
+        for path, how in fa.mutations(node):
+            if path in ("self.Q", Q) or path.startswith("self.Q."):
+                muts.append((fn, node, how))
+    for mname, m in ci.methods.items():
+        if m is fn:
+            continue
+        fa2 = alias.FunctionAliasing(m)
+        for node in fa2.cfg.nodes:
+            for path, how in fa2.mutations(node):
+                if path == "self.Q":
+                    muts.append((m, node, how))
+    if muts:
+        for m, node, how in muts:
+            rep.bad("C10.R5", f"{ci.rel}:{ci.qual}.{m.name}", node.ast, f"the stored reference coordinates self.Q are modified in place ({how.lstrip('?')}): the reference strains then belong to "
+                    "another configuration than the one supplied, which is no longer stress-free (Quaternion interpolation is linear in the raw nodal quaternions)", f"{ci.rel}:{node.lineno}")
+    else:
+        rep.ok("C10.R5", C, "no method of the rod modifies self.Q in place")
+    # the kernel is evaluated on selections of self.Q
+    ev = [w for w in ast.walk(fn) if isinstance(w, ast.Call) and isinstance(w.func, ast.Attribute) and w.func.attr == "_eval" and w.args]
+    loc = {n.targets[0].id: n.value for n in ast.walk(fn) if isinstance(n, ast.Assign) and isinstance(n.targets[0], ast.Name)}
+    okk = bool(ev)
+    for c in ev:
+        a = c.args[0]
+        v = loc.get(a.id) if isinstance(a, ast.Name) else a
+        okk = okk and isinstance(v, ast.Subscript) and norm_src(v.value) in ("self.Q", Q)
+    if okk:
+        rep.ok("C10.R5", C, f"{len(ev)} kernel evaluations on element selections of self.Q")
+    else:
+        rep.bad("C10.R5", C, ev[0] if ev else fn.name, "the reference strains are not evaluated on element selections of the stored reference coordinates", f"{ci.rel}:{fn.lineno}")
+
+
 def run(ctx):
     rep = ctx.rep
     rep.rule("C10.R1", "strains have no data path from the interpolated position", 8)
     rep.rule("C10.R2", "consumers discard the position output of the kernels", 8)
     rep.rule("C10.R3", "same kernel / quadrature point / scaling for reference and current strains", 30)
+    rep.rule("C10.R5", "the reference strains are evaluated on the reference coordinates as supplied (self.Q is a verbatim copy; nothing rewrites it)", 3)
+    reference_verbatim(ctx)
     rep.rule("C10.R4", "derivative weights in the position rows; argument order of the material law", 6)
     model = ctx.model
     # ---- R1
@@ -214,5 +273,10 @@ MUTANTS = [
     dict(id="c10-m8", what="R12 tangent interpolated with N instead of N_xi", file=CR,
          old="                r_OP += N[node] * r_OP_node\n                r_OP_xi += N_xi[node] * r_OP_node\n\n            # interpolate transformation matrix and its derivative\n            A_IB = np.zeros((3, 3), dtype=qe.dtype)\n            A_IB_xi = np.zeros((3, 3), dtype=qe.dtype)\n            for node in range(self.nnodes_element_p):\n                A_IB_node = Exp_SO3_quat(qe[self.nodalDOF_element_p[node]])",
          new="                r_OP += N[node] * r_OP_node\n                r_OP_xi += N[node] * r_OP_node\n\n            # interpolate transformation matrix and its derivative\n            A_IB = np.zeros((3, 3), dtype=qe.dtype)\n            A_IB_xi = np.zeros((3, 3), dtype=qe.dtype)\n            for node in range(self.nnodes_element_p):\n                A_IB_node = Exp_SO3_quat(qe[self.nodalDOF_element_p[node]])", expect="C10.R1"),
+]
+MUTANTS += [
+    dict(id="c10-r5-seed", canary=True, what="[seeded by sub-agent] set_reference_strains normalises the nodal quaternions of the stored reference before evaluating the strains", file="cardillo/rods/_base.py",
+         old="        self.Q = Q.copy()\n\n        # precompute values of the reference configuration",
+         new="        self.Q = Q.copy()\n        for node in range(self.nnodes_p):\n            p = self.Q[self.nodalDOF_p[node]]\n            self.Q[self.nodalDOF_p[node]] = p / norm(p)\n\n        # precompute values of the reference configuration", expect="C10.R5"),
 ]
 NEUTRAL = []
